@@ -9,6 +9,7 @@ PROP = {
         "Sonic.Props.C17.C17_callbacks_exactly_once",
         "Sonic.Props.C17.C17_pending_callback_has_reactor",
         "Sonic.Props.C17.C17_one_reader",
+        "Sonic.Props.C17.C17_enter_only_owed",
         "Sonic.Props.C17.C17_wire_order",
         "Sonic.Props.C17.C17_wire_complete",
         "Sonic.Props.C17.C17_unserialised_drops_callback",
